@@ -24,7 +24,7 @@ type faultHeader struct {
 // counts the exclusion; otherwise the panic is reported as a violation.
 const findingCaseCollisionPanic = "C17/case-insensitive-name-collision-panics"
 
-var enumeratedFaults = []faultKind{faultUnavailable, faultCorrupt, faultTruncated, faultNotFound}
+var enumeratedFaults = []faultKind{faultUnavailable, faultCorrupt, faultTruncated, faultNotFound, faultShortObject}
 
 // scenario is everything needed to rebuild an identical world.
 type scenario struct {
@@ -81,7 +81,7 @@ func describeCall(c *fakeCAS, mat *materialized, k int) string {
 
 func TestC17MalformedAndFaults(t *testing.T) {
 	rec := simkit.NewRecorder(t, "C17", "inputroot-malformed-faults",
-		"rapid scenario = DAG + 0-2 malformations (invalid names \"\", \".\", \"..\", \"a/b\", \"/\", NUL; duplicate names across files/directories/symlinks; digests that are non-hex, short, upper case, empty, nil or negative-sized; unparseable, missing or corrupted Directory blobs; missing or corrupted file blobs) + a generated step script (same step set as inputroot-model plus MergeDirectoryContents retries and a repair step that stores missing/corrupted blobs correctly). The script is first run fault-free counting CAS reads, then once per (read index x {UNAVAILABLE, corrupted bytes, truncated bytes, NOT_FOUND}) in a fresh world: fault enumeration, exhaustive per scenario. Oracle: an answer that needs an inaccessible directory/file is an error (EIO status / error), never any tree; everything else equals the model; a step during which a fault fired reports an error, changes nothing, and gives the model's answer when retried; the visited part is compared after every step and the whole tree at the end. One evaluation = one (scenario, fault) run. NON-TRIVIAL: the fault hit the lazy fetch of a non-root directory or a file read and the retry succeeded, or (fault-free run) a malformed non-root directory was hit and reported as an error; distinct by script hash")
+		"rapid scenario = DAG + 0-2 malformations (invalid names \"\", \".\", \"..\", \"a/b\", \"/\", NUL; duplicate names across files/directories/symlinks; digests that are non-hex, short, upper case, empty, nil or negative-sized; unparseable, missing or corrupted Directory blobs; missing or corrupted file blobs; file objects that lost their tail on a medium served through a non-validating ReaderAt buffer) + a generated step script (same step set as inputroot-model plus MergeDirectoryContents retries and a repair step that stores missing/corrupted blobs correctly). The script is first run fault-free counting CAS reads, then once per (read index x {UNAVAILABLE, corrupted bytes, truncated bytes, NOT_FOUND, and for file reads: object short by half served unvalidated}) in a fresh world; read buffers are pre-filled so that stale bytes are visible: fault enumeration, exhaustive per scenario. Oracle: an answer that needs an inaccessible directory/file is an error (EIO status / error), never any tree; everything else equals the model; a step during which a fault fired reports an error, changes nothing, and gives the model's answer when retried; the visited part is compared after every step and the whole tree at the end. One evaluation = one (scenario, fault) run. NON-TRIVIAL: the fault hit the lazy fetch of a non-root directory or a file read and the retry succeeded, or (fault-free run) a malformed non-root directory was hit and reported as an error; distinct by script hash")
 	rapid.Check(t, func(rt *rapid.T) {
 		sc := &scenario{cfg: drawWorldConfig(rt), spec: drawDAG(rt)}
 		sc.malforms = drawMalformations(rt, sc.spec)
@@ -205,6 +205,9 @@ func TestC17MalformedAndFaults(t *testing.T) {
 		for k := 0; k < nCalls; k++ {
 			what := describeCall(c, r.mat, k)
 			for _, kind := range enumeratedFaults {
+				if kind == faultShortObject && what != "file_read" {
+					continue // only file blobs are read piecewise
+				}
 				fh := faultHeader{Op: "fault", Call: k, Kind: faultKindNames[kind], What: what}
 				fr, fc, err := sc.build(map[int]faultKind{k: kind})
 				if err != nil {
